@@ -24,3 +24,10 @@ for u in index['units']:
         eff[u['ident']] = engine.os_effects(engine.unit_orig_text(u))
 json.dump(eff, open(os.path.join(engine.VERIF, 'effects_baseline.json'), 'w'), indent=1, sort_keys=True)
 print('OS-request frames recorded:', len(eff))
+
+# impl / derive inventory of every source file that holds a unit (see engine.item_inventory)
+inv = {}
+for f in sorted(set(u['file'] for u in index['units'])):
+    inv[f] = engine.item_inventory(os.path.join(engine.REPO, f))
+json.dump(inv, open(os.path.join(engine.VERIF, 'inventory_baseline.json'), 'w'), indent=1, sort_keys=True)
+print('impl/derive inventories recorded:', len(inv), 'files,', sum(len(v) for v in inv.values()), 'entries')
